@@ -169,6 +169,42 @@ def _conserved(seq, pieces, val):
     return problems
 
 
+def _operator_roles(ctx, rel, qual, cell, pieces, elems):
+    """Which operator an implicit position receives: a group that matches only digits is a count and is joined by the
+    multiplication; any other emitted text that follows an inserted operator (a species, an opening parenthesis) is
+    the next summand and is joined by the addition."""
+    cfg = {c.relpath: c for c in all_configs(ctx.repo)}.get(rel)
+    if cfg is None or rel != SS:          # in a substance formula the count follows what it multiplies (in a material it precedes the molecule)
+        return
+    syms = {k: cfg.symbol(ctx.repo, v) for k, v in cfg.operators.items()}
+    digits = {}
+
+    def collect(es):
+        for e in es:
+            if e.kind == "group":
+                digits[e.group] = e.digits
+            collect(e.children)
+    collect(elems)
+    for i, p in enumerate(pieces[:-1]):
+        if p[0] != "op":
+            continue
+        nxt = pieces[i + 1]
+        if nxt[0] == "g" and nxt[1] in digits:
+            want = "mul" if digits[nxt[1]] else "add"
+            role = "a count (digits only)" if digits[nxt[1]] else "the next summand"
+        elif nxt == ("lit", "("):
+            want, role = "add", "a parenthesised summand"
+        else:
+            continue
+        what = f"{cell}: the operator inserted before {role} is the {'multiplication' if want == 'mul' else 'addition'}"
+        if p[1] == syms.get(want):
+            ctx.holds(rel, qual, what, detail=pieces)
+        elif p[1] in syms.values():
+            ctx.violated(rel, qual, what, detail={"emitted": pieces, "inserted": p[1]}, expected=syms.get(want))
+        else:
+            ctx.form(False, rel, qual, what, detail=pieces)
+
+
 def r2_conservation(ctx):
     n = nb = 0
     for rel, qual in ((SS, "SubstanceSolver.preprocess"), (MS, "MaterialSolver.preprocess")):
@@ -220,6 +256,7 @@ def r2_conservation(ctx):
                     ctx.unrecognised(rel, qual, cell, str(e))
                     continue
                 nb += 1
+                _operator_roles(ctx, rel, qual, cell, pieces, elems)
                 probs = _conserved(seq, pieces, val)
                 ctx.check(not probs, rel, qual, cell, detail={"emitted": pieces, "problems": probs} if probs else pieces,
                           expected=f"every element of {seq} re-emitted in order, or proven empty, or whitespace replaced by an operator")
@@ -325,6 +362,27 @@ def r3_accumulation(ctx):
                          (SU, "Substance.__add__", "return self._add(Substance(natural=self.natural), other)")):
         fn = ctx.fn(rel, q)
         ctx.form([norm(x) for x in K.body_nodoc(fn)] == [want], rel, q, "arithmetic builds a fresh substance in the same isotope mode")
+    # the isotope mode travels with every object arithmetic creates: a constructor call of the own class inside
+    # __mul__/__add__/__rmul__ names `natural=self.natural` (the default would silently switch the copy to natural means)
+    nmode = 0
+    for rel, cname in ((EL, "Element"), (SU, "Substance")):
+        c = ctx.repo.cls(rel, cname)
+        for mname in ("__mul__", "__rmul__", "__add__", "__radd__"):
+            fn = methods(c).get(mname)
+            if fn is None:
+                continue
+            me = fn.args.args[0].arg
+            for call in [x for x in ast.walk(fn) if isinstance(x, ast.Call) and dotted_name(x.func) == cname]:
+                nmode += 1
+                kw = {k.arg: norm(k.value) for k in call.keywords}
+                what = "arithmetic keeps the isotope mode of its operand"
+                if kw.get("natural") == f"{me}.natural" or (None in kw):
+                    ctx.holds(rel, f"{cname}.{mname}", what, detail=norm(call)[:100])
+                elif "natural" not in kw and len(call.args) < 3:
+                    ctx.violated(rel, f"{cname}.{mname}", what, detail=norm(call)[:100], expected=f"natural={me}.natural")
+                else:
+                    ctx.form(False, rel, f"{cname}.{mname}", what, detail=norm(call)[:100])
+    ctx.floor("constructor calls in species arithmetic", nmode, 4)
     fn = ctx.fn(SU, "Substance.data_composite")
     src = norm(fn)
     for col, f in (("mass", "m.mass"), ("Z", "m.Z"), ("N", "m.N"), ("e", "m.e")):
